@@ -429,6 +429,8 @@ impl Clone for DecayingAcceptanceSampler {
 pub struct PartitionSampler {
     bins: Vec<WeightedIndex<u64>>,
     pub bin_validators: Vec<Vec<ValidatorIndex>>,
+    /// Weight of each entry of `bin_validators`, in units of `1 / num_bins` of a stake unit
+    /// (the weights of every bin sum to the total stake).
     pub bin_stakes: Vec<Vec<Stake>>,
 }
 
@@ -450,7 +452,11 @@ impl PartitionSampler {
         let mut bin_stakes = vec![Vec::new(); num_bins];
 
         let total_stake: Stake = validators.iter().map(|v| v.stake).sum();
-        let stake_per_bin = total_stake.div_ceil(num_bins as u64);
+        // Stake is partitioned in units of `1 / num_bins` of a stake unit: a validator
+        // contributes `stake * num_bins` units and every bin holds exactly `total_stake` units.
+        // This way all bins are exactly full (so none stays empty), whether or not
+        // `num_bins` divides the total stake.
+        let units_per_bin = u128::from(total_stake.inner());
         let mut validators_random = validators;
         // The permutation must be the same on every node and for every instance
         // (all nodes have to derive identical bins), so it is drawn from a fixed seed.
@@ -458,20 +464,21 @@ impl PartitionSampler {
 
         // partition into bins
         let mut current_bin = 0;
-        let mut current_bin_stake = Stake::new(0);
+        let mut current_bin_units = 0u128;
         for v in validators_random {
-            let mut stake = v.stake;
-            while stake > Stake::new(0) {
+            let mut units = u128::from(v.stake.inner()) * num_bins as u128;
+            while units > 0 {
                 bin_validators[current_bin].push(v.id);
-                let stake_to_take = stake.min(stake_per_bin - current_bin_stake);
-                current_bin_stake += stake_to_take;
-                bin_stakes[current_bin].push(stake_to_take);
-                stake -= stake_to_take;
+                let units_to_take = units.min(units_per_bin - current_bin_units);
+                current_bin_units += units_to_take;
+                // at most `units_per_bin = total_stake`, so this fits a `Stake`
+                bin_stakes[current_bin].push(Stake::new(units_to_take as u64));
+                units -= units_to_take;
                 if current_bin < num_bins - 1
-                    && (stake > Stake::new(0) || current_bin_stake == stake_per_bin)
+                    && (units > 0 || current_bin_units == units_per_bin)
                 {
                     current_bin += 1;
-                    current_bin_stake = Stake::new(0);
+                    current_bin_units = 0;
                 }
             }
         }
